@@ -34,7 +34,9 @@ def words(alpha, maxlen):
 @job('C17')
 def like_semantics(prop, tier, seed):
     rbql, eng = load_rbql()
-    pl, tl = (3, 2) if tier == 'quick' else (4, 3)
+    # quick: patterns <= 3 x texts <= 2 (0.6 M pairs); thorough: patterns <= 3 x texts <= 3 (8.7 M pairs) -- patterns <= 4 x texts <= 3
+    # would be 121 M engine evaluations (hours)
+    pl, tl = (3, 2) if tier == 'quick' else (3, 3)
     pats = list(words(ALPHA, pl))
     texts = list(words(ALPHA, tl))
     rnd = random.Random(seed)
